@@ -1,6 +1,7 @@
 import Lean.Data.Json
 import UcantoModel.Model.Validator
 import UcantoModel.Model.Oracle
+import UcantoModel.Model.Server
 /-! Parsing of the harness's abstract world (JSON) into the validator model's `World`. -/
 open Lean
 
@@ -77,6 +78,8 @@ structure Parsed where
   d : Desc
   inv : View
   ntokens : Nat
+  invs : List View := []
+  services : List Srv.Method := []
 
 def derivesOf (mode : String) : Cap → Cap → Bool :=
   fun claimed delegated =>
@@ -142,9 +145,15 @@ def parseWorld (j : Json) : Except String Parsed := do
     readNb := fun nb => some (sortNb nb)
     derives := derivesOf dder
   }
+  let invIds ← (← getArr j "invs").toList.mapM (·.getNat?)
+  let invs := invIds.filterMap fun i => (tokenOf i).map fun t => (⟨t, i⟩ : View)
+  let services ← (← getArr j "services").toList.mapM fun sj => do
+    let can ← getStr sj "can"
+    let res ← getStr sj "result"
+    pure ({ can := bytesOf can, desc := { d with can := bytesOf can }, handlerOk := res != "err" } : Srv.Method)
   match tokenOf invId with
   | none => throw "no invocation token"
-  | some t => pure { W, d, inv := ⟨t, invId⟩, ntokens := toks.size }
+  | some t => pure { W, d, inv := ⟨t, invId⟩, ntokens := toks.size, invs, services }
 
 def parseSpine (j : Json) : Except String (List SpineItem) := do
   (← j.getArr?).toList.mapM fun it => do
@@ -160,5 +169,15 @@ def strOf (b : Bytes) : String := (String.fromUTF8? (ByteArray.mk b.toArray)).ge
 def spineStr : Auth → List String
   | .root v c => [s!"{v.tok.id}:{strOf c.can}:{strOf c.rsrc}:{nbStr c.nb}"]
   | .step v c sub => s!"{v.tok.id}:{strOf c.can}:{strOf c.rsrc}:{nbStr c.nb}" :: spineStr sub
+
+def outStr : Srv.Out → String
+  | .ok => "ok"
+  | .handlerExecutionError => "HandlerExecutionError"
+  | .unauthorized => "Unauthorized"
+  | .handlerNotFound => "HandlerNotFoundError"
+  | .invocationCapabilityError => "InvocationCapabilityError"
+
+def callStr (c : Cap) : String :=
+  s!"{strOf c.can},{strOf c.rsrc},[{" ".intercalate (c.nb.map fun kv => s!"{kv.1}={kv.2}")}]"
 
 end WorldJson
